@@ -118,6 +118,24 @@ def run(ctx):
     # kept nodes shared by several kept parents, next to different siblings in different orders
     for _ in range(40 if thorough else 12):
         cases.append((progs.gen_shared_keeps_world(rng), False, None))
+    # names that are words of the DOT language, or need quoting there: all kept paths under one directory, so that whatever
+    # label is derived from them (full path, last segment, path relative to the common directory) may be such a word
+    KW = ["graph", "node", "edge", "digraph", "subgraph", "strict", "Graph", "NODE", "a b", "x.y", "n-1", "0", "label"]
+    for ki in range(12 if thorough else 4):
+        w = progs.gen_world(rng)
+        mapping = {}
+
+        def ren(p_):
+            if p_ not in mapping:
+                mapping[p_] = "/kw/" + (KW[(len(mapping) + ki) % len(KW)] if len(mapping) < len(KW) else "p%d" % len(mapping))
+            return mapping[p_]
+        for f in w["funs"]:
+            if f.get("store_path"):
+                f["store_path"] = ren(f["store_path"])
+            for it in f["items"]:
+                if it.get("path"):
+                    it["path"] = ren(it["path"])
+        cases.append((w, False, "eval"))
     for wi, (w, with_loads, ek) in enumerate(cases):
         ek = ek or ("eval" if rng.random() < 0.6 else "keep")
         entry = {"kind": "eval", "fun": "f0"} if ek == "eval" else {"kind": "keep", "fun": "f0", "path": "/top"}
